@@ -51,6 +51,43 @@ prop('C15', 'In-place minification touches only Python files and never corrupts 
                  'module or any later one.')
 
 
+def printer_tasks(tier):
+    from contracts import printer
+    ts = [Task('printer.totality', 'contracts.printer:task_totality')]
+    for rec, tag, meth in printer.fuc_list():
+        ts.append(Task('printer.%s.%s[%s]' % (rec, meth, tag), 'contracts.printer:task_visit', receiver=rec, tag=tag, method=meth))
+    ts.append(Task('standin.enum_print.depth2', 'contracts.printer:task_standin', standin='enum_print depth 2', script='enum_print.py',
+                   args=['--depth', '2'], bound='every (slot, child kind) pair of spec/astlib.py, nesting depth 2, strict re-parse'))
+    ts.append(Task('standin.literal_pool', 'contracts.printer:task_standin', standin='literal pool', script='literal_pool.py', args=[],
+                   bound='61 constants of every type x 19 token contexts, strict re-parse'))
+    if tier == 'thorough':
+        for i in range(8):
+            ts.append(Task('standin.enum_print.depth3.%d' % i, 'contracts.printer:task_standin', standin='enum_print depth 3 shard %d/8' % i,
+                           script='enum_print.py', args=['--depth', '3', '--shard', '%d/8' % i],
+                           bound='every (slot, child, grandchild) triple of spec/astlib.py, nesting depth 3, strict re-parse'))
+        ts.append(Task('standin.float_sweep', 'contracts.printer:task_standin', standin='float sweep', script='literal_pool.py',
+                       args=['--sweep', '6'], bound='every binary exponent x (4 boundary + 6 seeded random mantissas), 4 contexts'))
+    return ts
+
+
+PRINTER_TRUST = ['spec/grammar_levels.py (expression levels and slot requirements written from Grammar/python.gram; trusted oracle)',
+                 'trees are parser-produced (AST validity assumptions listed in contracts/printer.py:ASSUMPTIONS)',
+                 'TokenPrinter methods by contract inside the printer group; f-string candidate search trusted to its own re-parse filter']
+
+prop('C02', 'Printed source re-parses to exactly the same syntax tree', 'other', printer_tasks, ['C02/', 'C08/total'],
+     replay='props.replay_printer:replay_printer', trusted=PRINTER_TRUST,
+     explanation='Inductive step of the round-trip proved per printer method for a symbolic node of every class with symbolic children: '
+                 'every child print event is either parenthesised or sits at a grammar level the slot accepts (all operators, all '
+                 'child classes, any depth; z3 over enum tags and Real levels). Constants reach the TokenPrinter method of their own '
+                 'type. Level "other": the grammar oracle is hand-written and f-string/float text is covered by bounded stand-ins only.')
+prop('C08', 'Every compilable module is minified without error into a compilable module', 'other', printer_tasks,
+     ['C08/', 'C02/L2/'], replay='props.replay_printer:replay_printer', trusted=PRINTER_TRUST,
+     explanation='Partial: exception-freedom of every printer method for a symbolic node of its class (no-exception obligations), totality '
+                 'of every class/operator dispatch table of the running interpreter, and the L2 obligations that make the printed text '
+                 'parse (so the internal UnstableMinification check cannot fire for the covered part). Code outside the printers is '
+                 'covered by the other groups; whole-package termination/memory are not decided.')
+
+
 def run_property(pid, tier):
     p = PROPS[pid]
     t0 = time.time()
